@@ -102,6 +102,12 @@ CHECKS["C16"] = {
     "technique": "symbolic execution (CrossHair/z3) of the real local store configuration code over a file-system model with cwd and symlinks; real-OS replay",
 }
 
+CHECKS["C17"] = {
+    "text": "Real CodecRegistry / built-in codecs / LocalFileStore.store_blob + fetch_blob over the file-system model: the content of a str (any code points) or bytes value is symbolic, and between write and read a solver-chosen sequence of up to 3 codec registrations (user codecs for str, bytes, object, as codec or file codec, one re-using the built-in reference) or a fresh process (default registry rebuilt) takes place; the value must be read back equal and of the same type, with the codec whose reference the .meta file names, and str / bytes must be stored verbatim. Plus CodecRegistry.get_codec against the documented rules (reference wins, else the type's codec, else the object codec, else DDSException) for all (type, reference) pairs after symbolic registration sequences. Pickled values are concrete witnesses; pandas is outside.",
+    "design_ref": "DESIGN.md 5-C17",
+    "technique": "symbolic execution (CrossHair/z3) of the codec registry and built-in codecs over a file-system model with symbolic contents and registration sequences; real-OS replay",
+}
+
 NOT_APPLICABLE = {}
 
 
